@@ -47,7 +47,9 @@ def units(tier, seed):
     only = os.environ.get("PGMC_ONLY_SPACES")      # exploratory use only
     if only:
         rows = [r for r in rows if r["space"] in only.split(",")]
-    return glrsweep.make_units(rows)
+    from pgmc import longfam
+    return glrsweep.make_units(rows) + longfam.units(
+        (11, 12) if tier == "quick" else (11, 12, 13, 14))
 
 
 def check_case(ctx, an, s, p, o):
@@ -80,6 +82,9 @@ def check_case(ctx, an, s, p, o):
 
 
 def run_unit(u):
+    if u["space"] == "long":
+        from pgmc import longfam
+        return longfam.run(u, PROP, KNOWN, "language")
     return glrsweep.sweep(u, PROP, KNOWN, check_case)
 
 
